@@ -267,11 +267,13 @@ def run_c01(cfg):
                 off = off + ci
             outs.append(o.finalize())
         except Exception as e:
+            symex.guard(e)
             return ('exc', 'streaming %s: %s' % (type(e).__name__, e))
         o2 = mk(ns, S, M, D, style, ncoef, power, log)
         try:
             full = o2.compute_full(sig(z3.IntVal(0), conc(SInt(N))))
         except Exception as e:
+            symex.guard(e)
             return ('exc', 'compute_full %s: %s' % (type(e).__name__, e))
         rc = []
         for a in outs:
